@@ -8,6 +8,7 @@ mod model;
 mod ops;
 mod rec;
 mod spec;
+mod tarfmt;
 mod ubj;
 mod util;
 mod view;
